@@ -40,6 +40,10 @@ def cases(tier, seed):
                     out.append({"h": "H15", "collect": col, "dests": list(combo), "stop_at": stop_at, "_w": k})
         for n in (16, 17, 20):
             out.append({"h": "H15", "collect": col, "dests": [0, 1], "burst": n, "stop_at": None, "_w": 3})
+        # a stopped instance's queued unicast offers are discarded (see ServiceInstance.stop):
+        # the queue for that peer must keep working afterwards
+        for tail in ([1], [1, 1], [1, 0], [2, 1]):
+            out.append({"h": "H15", "collect": col, "dests": [1] + tail, "purge_after": 0, "stop_at": None, "_w": 3})
     return out
 
 
@@ -73,8 +77,24 @@ def h15(E, M, case):
 
         sc.at(t, cb, name)
 
+    purged = []
+    inst = None
+    if case.get("purge_after") is not None:
+        svc = M.config.Service(0x0F00, 1, 1, 0)
+        inst = sd.ServiceInstance(svc, sd.ServerServiceListener(), ann, tm)
     for i, di in enumerate(case["dests"]):
         t = t + E.int("dt%d" % i, 0, 20)
+        if inst is not None and i == case["purge_after"]:
+            # request i is an offer of `inst` for a unicast peer (a FindService answer); the
+            # instance's queued offers are discarded some time later
+            tg = tag[0]
+            tag[0] += 1
+            purged.append(tg)
+            reqs.append((0x0F00, DESTS[di], t))
+            sc.at(t, lambda d=DESTS[di]: inst._send_offer(d), "q%d" % i)
+            t = t + E.int("dtp", 0, 20)
+            sc.at(t, lambda: ann.discard_queued_offers(inst), "purge")
+            continue
         if case.get("stop_at") == i:
             sc.at(t, ann.stop, "stop%d" % i)
         # a burst is one application call sequence inside a single callback
@@ -96,6 +116,12 @@ def h15(E, M, case):
     E.observe([[s[0], str(s[1]), s[2], s[3]] for s in sent])
     for tg, dest, tq in reqs:
         mine = [s for s in sent if s[0] == tg]
+        if tg == 0x0F00:
+            # the discarded offer: sent once if it left before the discard, else not at all
+            E.require(len(mine) <= 1, "a discarded offer is sent at most once")
+            if not mine:
+                reqs = [r for r in reqs if r[0] != 0x0F00]
+            continue
         E.require(len(mine) == 1, "every queued entry is transmitted exactly once", {"tag": tg, "times": len(mine)})
         for s in mine:
             E.reach("h15.sent")
